@@ -17,6 +17,13 @@
 // A second part (chains.go) covers what the depth bound of the search cannot:
 // long chains (>= 128 back-offs) of one kind / two kinds on one backoffer for
 // every kind incl. a synthetic grid of configs, judged after every step.
+//
+// A third part (alias.go) covers the independence of a back-offer, its clones
+// and its forks: a source brought to every internal capacity state (0..n prior
+// back-offs, made directly / before a fork / on a merged fork), two derived
+// back-offers, every interleaving of their back-offs, exhaustion of either
+// one, optional merge; every program is executed (no deduplication) and every
+// live back-offer is observed (and, if exhausted, probed) after every operation.
 package main
 
 import (
@@ -580,19 +587,23 @@ func main() {
 		nTransitions.Add(as.steps)
 		nOpsExecuted.Add(as.steps)
 		b := as.bounds
+		var jn []string
+		for _, j := range b.jits {
+			jn = append(jn, []string{"min", "max"}[j])
+		}
 		var fams []string
 		for _, f := range b.families {
 			fams = append(fams, f.String())
 		}
 		bounds["alias"] = map[string]any{
-			"prior_backoffs": b.priors, "kinds_among_prior_backoffs": b.patterns, "prior_kinds": aliasOldKinds, "source_made_via": viaNames, "derived_pairs": shapeNames,
-			"second_derived_taken": "with the first | right before its first step", "second_derived_taken_late_only_when_derived_from_the_first": b.lateOnlyChained, "jitter_answers": len(b.jits),
+			"prior_backoffs": b.priors, "prior_backoffs_with_the_first_two_families_only": b.priorsBasic, "kinds_among_prior_backoffs": b.patterns, "prior_kinds": aliasOldKinds, "source_made_via": viaNames, "derived_pairs": shapeNames,
+			"second_derived_taken": "with the first | right before its first step", "second_derived_taken_late_only_when_derived_from_the_first": b.lateOnlyChained, "jitter_answers": jn,
 			"step_sequence_families": fams, "step_kinds": aliasStepKinds,
 			"budget": "the total of D1 | D2 | S (if it steps) after its last step", "ending": "UpdateUsingForked of D1 | D2 into its parent (if it has one), then one back-off of the receiver and of the other derived back-offer",
 			"merge_into_top_of_parent_chain": b.farMerge,
 		}
 		perSuite["alias"] = map[string]any{"sources_x_derivations": as.bases, "step_sequences": as.seqs, "programs": as.programs, "states": as.states, "states_after_a_step_behind_the_derivation": as.nontrivial,
-			"transitions": as.steps, "refused_probe_calls": as.probes, "refused_probe_calls_with_a_defined_longest_kind": as.probesDef}
+			"transitions": as.steps, "refused_calls": as.probes, "refused_calls_whose_longest_kind_has_a_single_entry": as.probesDef}
 	}
 	if stopProfile != nil {
 		stopProfile()
